@@ -114,6 +114,7 @@ Inductive case :=
 | KFixed (k : nat) (n : N) (enc : bytes)                           (* MarshalUint64/32 + Unmarshal *)
 (* model.LogEvent *)
 | KLeEnc (e : levent) (size : nat) (enc : bytes)                   (* WritableSize; Marshal into a buffer of that size *)
+| KLeEncShort (e : levent) (sz : nat) (enc : bytes)                (* Marshal into a zeroed buffer of sz bytes, sz below WritableSize *)
 | KLeDec (prev : levent) (buf : bytes) (obs : outcome levent)      (* Unmarshal into a reused struct *)
 | KLeIter (recs : list bytes) (obs : outcome (list levent))        (* LogEventIterator Get/Next over records *)
 (* rpc codecs *)
@@ -142,6 +143,7 @@ Definition check (c : case) : bool :=
       bytes_eqb (marshal_fixed k n) enc && outcome_eqb nn_eqb (consumed enc (unmarshal_fixed k enc)) (Ok (n, k))
   | KLeEnc e size enc =>
       Nat.eqb (writable_size e) size && bytes_eqb (marshal_into (writable_size e) e) enc && bytes_eqb (marshal_le e) enc
+  | KLeEncShort e sz enc => bytes_eqb (marshal_into sz e) enc
   | KLeDec prev buf obs => outcome_eqb levent_eqb (unmarshal_le prev buf) obs
   | KLeIter recs obs => outcome_eqb (list_eqb levent_eqb) (lei_read le_zero recs) obs
   | KApiEnc e enc => bytes_eqb (write_api_event e) enc
